@@ -14,6 +14,7 @@ fn main() {
 		"signals-table" => signals_table(),
 		"exitstatus" => exitstatus(&args[2]),
 		"paths-summary" => paths_summary(&args[2]),
+		"spawn-argv" => rt.block_on(spawn_argv(&args[2], &args[3])),
 		"events-kinds" => events_kinds(),
 		"events-encode" => events_encode(&args[2]),
 		"events-decode" => events_decode(&args[2]),
@@ -240,5 +241,64 @@ fn paths_summary(cases: &str) {
 			map.into_iter().map(|(k, v)| (k.to_owned(), v.to_string_lossy().into_owned())).collect();
 		v.sort();
 		emit(&json!({"summary": v}));
+	}
+}
+
+// ---------------------------------------------------------------- C18
+
+async fn spawn_argv(cases: &str, dir: &str) {
+	use std::{ffi::OsStr, sync::Arc};
+	use watchexec_supervisor::{
+		command::{Command, Program, Shell, SpawnOptions},
+		job::start_job,
+	};
+	let helper = std::env::current_exe().unwrap().with_file_name("simchild");
+	std::fs::create_dir_all(dir).unwrap();
+	let me = unsafe { (libc::getpgid(0), libc::getsid(0)) };
+	for case in read_cases(cases) {
+		let id = case["id"].as_u64().unwrap();
+		let out = std::path::Path::new(dir).join(format!("out{id}.jsonl"));
+		let _ = std::fs::remove_file(&out);
+		let cwd = std::path::Path::new(dir).join(format!("cwd{id}"));
+		std::fs::create_dir_all(&cwd).unwrap();
+		let args: Vec<String> = strs(&case["args"]);
+		let program = if case["kind"] == "exec" {
+			Program::Exec { prog: helper.clone(), args }
+		} else {
+			Program::Shell {
+				shell: Shell {
+					prog: helper.clone(),
+					options: strs(&case["options"]),
+					program_option: case["progopt"].as_str().map(|s| std::borrow::Cow::Owned(OsStr::new(s).to_owned())),
+				},
+				command: case["command"].as_str().unwrap().to_owned(),
+				args,
+			}
+		};
+		let options = SpawnOptions {
+			grouped: case["grouped"].as_bool().unwrap(),
+			session: case["session"].as_bool().unwrap(),
+			reset_sigmask: case["sigmask"].as_bool().unwrap(),
+		};
+		let (job, task) = start_job(Arc::new(Command { program, options }));
+		let (out2, cwd2, mark) = (out.clone(), cwd.clone(), case["mark"].as_str().unwrap().to_owned());
+		let use_hook = case["hook"].as_bool().unwrap();
+		job.set_spawn_hook(move |cmd, _| {
+			cmd.command_mut().env("WXH_OUT", &out2);
+			if use_hook {
+				cmd.command_mut().env("WXH_MARK", &mark).current_dir(&cwd2);
+			}
+		});
+		let errs = Arc::new(std::sync::Mutex::new(Vec::<String>::new()));
+		let e2 = errs.clone();
+		job.set_error_handler(move |e| e2.lock().unwrap().push(format!("{:?}", e.get())));
+		job.start().await;
+		job.to_wait().await;
+		job.delete_now().await;
+		let _ = task.await;
+		let line = std::fs::read_to_string(&out).unwrap_or_default();
+		let rep: Value = line.lines().next().and_then(|l| serde_json::from_str(l).ok()).unwrap_or(Value::Null);
+		emit(&json!({"id": id, "report": rep, "errors": *errs.lock().unwrap(), "harness_pgid": me.0, "harness_sid": me.1,
+			"helper": hex(helper.to_string_lossy().as_bytes()), "cwd": cwd.to_string_lossy()}));
 	}
 }
